@@ -286,16 +286,18 @@ DecAt(ty, s, i) ==
 Dec(ty, s) == LET r == DecAt(ty, s, 1) IN IF r.ok THEN [ok |-> TRUE, v |-> r.v, used |-> r.i - 1] ELSE r
 
 \* ---------------------------------------------------------------- encoding with layout
-\* mark: [p |-> 0-based offset, n |-> bytes, c |-> class, x |-> auxiliary]
-\*   "fix"  fixed-width field (u, bytes, bits)        x = 0
-\*   "nat"  general natural value                     x = its 8-byte value
-\*   "len"  length / count prefix                     x = its 8-byte value
+\* mark: [p |-> 0-based offset, n |-> bytes, c |-> class, x |-> auxiliary 8-byte little-endian number]
+\*   "fix"  fixed-width field (u, bytes)              x = 0
+\*   "bits" bitfield                                  x = 0
+\*   "nat"  general natural value                     x = its value
+\*   "len"  length / count prefix                     x = its value
 \*   "disc" option / variant discriminator, boolean   x = number of valid values (0..x-1)
 \*   "body" blob body                                 x = 0
 \*   "ent"  dictionary entry (key ++ value)           x = 0
 \*   "flen" frame length (4 bytes)                    x = 0
 \*   "ftag" frame message type                        x = 0
-Mark(p, n, c, x) == [p |-> p, n |-> n, c |-> c, x |-> x]
+Mark(p, n, c, x) == [p |-> p, n |-> n, c |-> c, x |-> LE(x, 8)]
+MarkV(p, n, c, v8) == [p |-> p, n |-> n, c |-> c, x |-> v8]
 RECURSIVE EL(_, _, _), ELSeq(_, _, _, _), ELFields(_, _, _, _), ELPairs(_, _, _, _, _)
 \* all return [b |-> bytes, m |-> marks]
 ELSeq(t, vs, i, off) ==
@@ -314,22 +316,23 @@ ELPairs(kt, vt, ps, i, off) ==
            r == ELPairs(kt, vt, ps, i + 1, off + n) IN
        [b |-> hk.b \o hv.b \o r.b, m |-> <<Mark(off, n, "ent", 0)>> \o hk.m \o hv.m \o r.m]
 EL(ty, v, off) ==
-  CASE ty.k \in {"u", "bytes", "bits"} -> LET b == EncC(ty, v) IN [b |-> b, m |-> <<Mark(off, Len(b), "fix", 0)>>]
+  CASE ty.k \in {"u", "bytes"} -> [b |-> v, m |-> <<Mark(off, Len(v), "fix", 0)>>]
+    [] ty.k = "bits" -> LET b == EncC(ty, v) IN [b |-> b, m |-> <<Mark(off, Len(b), "bits", 0)>>]
     [] ty.k = "rest" -> [b |-> v, m |-> IF Len(v) > 0 THEN <<Mark(off, Len(v), "body", 0)>> ELSE <<>>]
-    [] ty.k = "nat" -> LET b == EncC(ty, v) IN [b |-> b, m |-> <<Mark(off, Len(b), "nat", Pad8(v))>>]
+    [] ty.k = "nat" -> LET b == EncC(ty, v) IN [b |-> b, m |-> <<MarkV(off, Len(b), "nat", Pad8(v))>>]
     [] ty.k = "blob" ->
          LET l == EncLen(Len(v)) IN
-         [b |-> l \o v, m |-> <<Mark(off, Len(l), "len", LE(Len(v), 8))>> \o (IF Len(v) > 0 THEN <<Mark(off + Len(l), Len(v), "body", 0)>> ELSE <<>>)]
+         [b |-> l \o v, m |-> <<Mark(off, Len(l), "len", Len(v))>> \o (IF Len(v) > 0 THEN <<Mark(off + Len(l), Len(v), "body", 0)>> ELSE <<>>)]
     [] ty.k = "blob2" ->
          LET l == EncLen(Len(v)) IN
-         [b |-> l \o l \o v, m |-> <<Mark(off, Len(l), "len", LE(Len(v), 8)), Mark(off + Len(l), Len(l), "len", LE(Len(v), 8))>>
+         [b |-> l \o l \o v, m |-> <<Mark(off, Len(l), "len", Len(v)), Mark(off + Len(l), Len(l), "len", Len(v))>>
                                     \o (IF Len(v) > 0 THEN <<Mark(off + 2 * Len(l), Len(v), "body", 0)>> ELSE <<>>)]
     [] ty.k = "bool" -> [b |-> EncC(ty, v), m |-> <<Mark(off, 1, "disc", 2)>>]
     [] ty.k = "unit" -> [b |-> <<>>, m |-> <<>>]
     [] ty.k = "seq" ->
          LET l == EncLen(Len(v))
              r == ELSeq(ty.of, v, 1, off + Len(l)) IN
-         [b |-> l \o r.b, m |-> <<Mark(off, Len(l), "len", LE(Len(v), 8))>> \o r.m]
+         [b |-> l \o r.b, m |-> <<Mark(off, Len(l), "len", Len(v))>> \o r.m]
     [] ty.k = "fseq" -> ELSeq(ty.of, v, 1, off)
     [] ty.k = "opt" ->
          IF Len(v) = 0 THEN [b |-> <<0>>, m |-> <<Mark(off, 1, "disc", 2)>>]
@@ -338,7 +341,7 @@ EL(ty, v, off) ==
     [] ty.k = "map" ->
          LET l == EncLen(Len(v))
              r == ELPairs(ty.key, ty.val, v, 1, off + Len(l)) IN
-         [b |-> l \o r.b, m |-> <<Mark(off, Len(l), "len", LE(Len(v), 8))>> \o r.m]
+         [b |-> l \o r.b, m |-> <<Mark(off, Len(l), "len", Len(v))>> \o r.m]
     [] ty.k = "enum" ->
          LET r == EL(ty.alts[v[1]].t, v[2], off + 1) IN
          [b |-> <<v[1] - 1>> \o r.b, m |-> <<Mark(off, 1, "disc", Len(ty.alts))>> \o r.m]
